@@ -606,8 +606,37 @@ struct FPolMap { template <typename K, typename V> using Map = PlainMap<K, V>; }
 struct FPolGreaterSingle { template <typename K, typename V> using Map = GreaterMap<K, V>; typedef eventpp::SingleThreading Threading; };
 struct FPolIncludeSpin { typedef eventpp::ArgumentPassingIncludeEvent ArgumentPassingMode; typedef eventpp::GeneralThreading<eventpp::SpinLock> Threading; };
 struct FPolCustomCb { typedef TCallback Callback; };
+// second family: by-value movable key in the prototype (the shape on which unspecified evaluation order shows)
+template <typename Policies, int N>
+struct FamCfgS
+{
+	typedef eventpp::EventDispatcher<std::string, void(std::string, TPayload), Policies> D;
+	static const char * name() { return "ED<std::string,void(std::string,TPayload)> policy family member"; }
+	static std::string key(int k) { return KS(k); }
+	static void dispatch(D & d, int k, int eid, int, uint32_t form) {
+		if(form == 0) { std::string kk = KS(k); TPayload p(eid); d.dispatch(kk, p); }
+		else if(form == 1) { const std::string kk = KS(k); const TPayload p(eid); d.dispatch(kk, p); }
+		else d.dispatch(KS(k), TPayload(eid));
+	}
+	static void expect(ArgPack & p, int k, int eid, int) { p.push(fpOf(KS(k))); p.push(eid); }
+};
+static void runFamilyS(const DMode & mode, uint64_t caseNo)
+{
+	const uint64_t seed = ctx().curSeed ^ 0x5bd1e995;
+	uint64_t h[4];
+	{ Rng r(seed); h[0] = runCfg<FamCfgS<eventpp::DefaultPolicies, 0> >(mode, r, caseNo, 110); }
+	{ Rng r(seed); h[1] = runCfg<FamCfgS<FPolGreaterSingle, 1> >(mode, r, caseNo, 111); }
+	{ Rng r(seed); h[2] = runCfg<FamCfgS<FPolIncludeSpin, 2> >(mode, r, caseNo, 112); }
+	{ Rng r(seed); h[3] = runCfg<FamCfgS<FPolCustomCb, 3> >(mode, r, caseNo, 113); }
+	static const char * names[] = { "default", "user map(std::greater)+SingleThreading", "IncludeEvent+SpinLock", "custom callback" };
+	for(int i = 1; i < 4 && ! caseHasViolation(); ++i)
+		if(h[i] != h[0]) violation(std::string("c20:trace-differs-between-policies:string-key:") + names[i], std::string("the same generated program produced a different observable trace under ") + names[i] + " than under " + names[0]);
+	gTraceXor ^= mix(h[0], caseNo); // four identical contributions cancel
+	count("family_runs", 4);
+}
 static void runFamily(const DMode & mode, uint64_t caseNo)
 {
+	if(caseNo % 3 == 2) { runFamilyS(mode, caseNo); count("family_programs"); return; }
 	const uint64_t seed = ctx().curSeed;
 	uint64_t h[6];
 	{ Rng r(seed); h[0] = runCfg<FamCfg<eventpp::DefaultPolicies, 0> >(mode, r, caseNo, 100); }
